@@ -26,15 +26,14 @@ Lemma only_named_files_full fs cwd rootdir :
         In (denote_entry x) (opens outs) /\
         forall (fs4 : Model.C04.fsys) fuel defs forced r,
           Spec.C04.fs_structured fs4 ->
-          Spec.C04.run_tu_S fs4 fuel (tu_of x defs forced) = Ok r ->
-          exists r', Model.C04.run_tu_M fs4 fuel (tu_of x defs forced) = Ok r' /\
-            forall g id, In (g, id) (Model.C04.assoc r') ->
-                         Proofs.C13c.reach fs4 (tu_of x defs forced) g.
+          Model.C04.run_tu_M fs4 fuel (tu_of x defs forced) = Ok r ->
+          forall g id, In (g, id) (Model.C04.assoc r) ->
+                       Proofs.C13c.reach fs4 (tu_of x defs forced) g.
 Proof.
   intros W A es outs H.
   destruct (load_database_spec fs cwd rootdir W A es outs H) as (o & w & L & Ho & _).
   exists o, w. split; [exact L|]. intros x Hx. split.
   - rewrite <- Ho. apply in_map. exact Hx.
-  - intros fs4 fuel defs forced r Hs HS.
-    apply (Proofs.C13c.tu_M_only_reachable fs4 (tu_of x defs forced) fuel r Hs HS).
+  - intros fs4 fuel defs forced r Hs HM.
+    apply (Proofs.C13c.tu_M_only_reachable fs4 (tu_of x defs forced) Hs fuel r HM).
 Qed.
